@@ -711,7 +711,7 @@ def run(ctx, replay=None):
         kinds = ["uniform", "loguniform", "reverseloguniform", "randint", "lograndint", "quniform", "qloguniform",
                  "qrandint", "qlograndint", "choice", "ordinal_equal", "ordinal_nn", "ordinal_nnlog", "finrange",
                  "logfinrange"]
-        specs = [gen_spec(rng, k) for k in kinds for _ in range(ctx.n(6, 150))]
+        specs = [gen_spec(rng, k) for k in kinds for _ in range(ctx.n(5, 150))]
         # the probes of DESIGN section 7 and other fixed corner cases, always part of the run
         specs += [dict(kind="qrandint", lower=1, upper=10, q=4), dict(kind="quniform", lower=0.1, upper=0.3, q=0.1),
                   dict(kind="qrandint", lower=0, upper=8, q=4), dict(kind="quniform", lower=0.5, upper=2.0, q=0.5),
@@ -1004,7 +1004,7 @@ def range_cases(ctx, C, spec, active, dom, adom, hpr, rng, count, scale):
         vecs.append(v)
     else:
         vecs += [[0.0], [1.0], [0.5], [rng.random()], [rng.random()]]
-        vecs += [[t] for t in thresholds_unit(spec, rng)[:ctx.n(6, 15)]]
+        vecs += [[t] for t in thresholds_unit(spec, rng)[:ctx.n(5, 15)]]
         if kind in ("randint", "lograndint", "qrandint", "qlograndint"):
             # +-1 ulp from the exact corners
             vecs += [[float(np.nextafter(0.0, 1.0))], [float(np.nextafter(1.0, 0.0))]]
@@ -1109,7 +1109,7 @@ def _space_cases(ctx, C, rng, cs, make_hpr, spaces):
              "ordinal_nn", "ordinal_nnlog", "finrange", "logfinrange"]
     if spaces is None:
         spaces = []
-        for _ in range(ctx.n(30, 800)):
+        for _ in range(ctx.n(22, 800)):
             n = rng.randint(2, 5)
             names = rng.sample(["lr", "wd", "layers", "act", "bs", "mom", "drop", "zeta", "alpha", "epochs"], n)
             sp = {}
